@@ -7,6 +7,7 @@ import (
 	"sync/atomic"
 
 	h "verif/harness"
+	"verif/models/abibytes"
 
 	avm "github.com/artela-network/artela-evm/vm"
 )
@@ -17,7 +18,18 @@ import (
 
 func c17Tx(seed uint64, i int) *c16Tx {
 	r := h.NewRNG(h.Mix(seed, uint64(i)))
-	switch r.Intn(5) {
+	switch r.Intn(6) {
+	case 5:
+		// writes through the context-write precompile (a contextful precompile cloned per call)
+		payload := abibytes.Encode([]byte(fmt.Sprintf("k%d", i)), r.Bytes(1+r.Intn(40)))
+		depth := 1 + r.Intn(2)
+		codes := make([][]byte, depth)
+		for d := 0; d < depth-1; d++ {
+			codes[d] = c14Forwarder(h.ContractAddr(d + 1))
+		}
+		codes[depth-1] = c14Last(h.Pick(r, []byte{h.CALL, h.CALL, h.STATICCALL, h.DELEGATECALL}), addrCtxWrite, 100000, h.Shanghai)
+		tx := h.TxSpec{Entry: h.ECall, From: h.Sender, To: h.ContractAddr(0), Input: payload, Gas: 3_000_000}
+		return &c16Tx{world: h.BaseWorld(codes), env: h.EnvSpec{Fork: h.Pick(r, []h.Fork{h.Berlin, h.Shanghai, h.Cancun})}, txs: []h.TxSpec{tx, tx, tx}, desc: "context-write precompile calls"}
 	case 0:
 		return c16Gen(h.Mix(seed, uint64(i), 1), "children")
 	case 1:
